@@ -18,8 +18,8 @@ Qed.
 Definition writer_post (f : fmt) (g : nat) (t : fsys) (w : world) (r : res) : Prop :=
   flag (wof r) = false /\ reg (wof r) = reg w /\ nuid (wof r) = nuid w /\
   ((fs (wof r) = Absent :: t /\ raised r = true)
-   \/ (exists n, fs (wof r) = Good g f n :: t)
-   \/ (f = Dir /\ raised r = true /\ exists n, fs (wof r) = Partial g n :: t)) /\
+   \/ ((exists n, fs (wof r) = Good g f n :: t) /\ (f = Dir -> raised r = false))
+   \/ (f = Dir /\ raised r = true /\ fault (wof r) = None /\ exists n, fs (wof r) = Partial g n :: t)) /\
   (fault w = None -> raised r = false /\ exists n, fs (wof r) = Good g f n :: t).
 
 (** a raise inside the try block that left the file system as it was *)
@@ -57,19 +57,21 @@ Proof.
     destruct (fs_only_mkroot g w0) as (m1 & m2 & m3 & m4 & m5).
     pose proof (run_shape_spec Dir sh (mkroot_dir g w0)) as ((a1 & a2 & a3) & B & C). cbn in C.
     destruct (C g 1 t H0) as (n' & Hn').
+    pose proof (run_shape_raised Dir sh (mkroot_dir g w0)) as HRF.
     destruct (run_shape Dir sh (mkroot_dir g w0)) as [w2|w2]; cbn [andthen wof raised] in *.
     + (* complete *)
       destruct (complete_spec w2 g n' t Hn') as (c1 & c2 & c3 & c4 & c5).
       unfold writer_fin. cbn [wof raised]. unfold writer_post. cbn [wof raised set_flag flag reg nuid fs].
       split; [reflexivity|]. split; [rewrite c2, a1, m1, R; reflexivity|]. split; [rewrite c3, a2, m2, N; reflexivity|].
       split.
-      * right. left. exists n'. exact c1.
+      * right. left. split; [exists n'; exact c1|intros _; reflexivity].
       * intros _. split; [reflexivity|]. exists n'. exact c1.
     + (* a member failed *)
       unfold writer_fin. cbn [wof raised]. unfold writer_post. cbn [wof raised set_flag flag reg nuid fs].
       split; [reflexivity|]. split; [rewrite a1, m1, R; reflexivity|]. split; [rewrite a2, m2, N; reflexivity|].
       split.
-      * right. right. split; [reflexivity|]. split; [reflexivity|]. exists n'. exact Hn'.
+      * right. right. split; [reflexivity|]. split; [reflexivity|]. split; [|exists n'; exact Hn'].
+        exact (HRF eq_refl).
       * intros Hn. exfalso. rewrite m5 in B. destruct B as (X & _); [apply FN; exact Hn|discriminate X].
   - (* mkdir of the root failed *)
     apply fin_after_raise.
@@ -151,7 +153,7 @@ Proof.
       destruct b4 as [(_ & X)|(Hg & _)]; [discriminate X|].
       unfold writer_post. split; [exact D|]. split; [rewrite B, b1; unfold wa, tmp_inc; cbn; exact R|].
       split; [rewrite C, b2; unfold wa, tmp_inc; cbn; exact N|]. split.
-      * right. left. exists 1. rewrite A. exact Hg.
+      * right. left. split; [exists 1; rewrite A; exact Hg|discriminate].
       * intros Hn. assert (Hna : fault wa = None) by (unfold wa, tmp_inc; cbn; apply FN; exact Hn).
         destruct (b3 Hna) as (_ & Hnb). split; [apply Ef; exact Hnb|]. exists 1. rewrite A. exact Hg.
     + destruct b4 as [(Hg & _)|(_ & X)]; [|discriminate X].
@@ -198,8 +200,12 @@ Qed.
 
 (* ------------------------------------------------------------------ *)
 (** * one save *)
+(** inductive invariant: besides the strengthened "latest good copy at <path> or
+    _BAK1", no path ever holds a partly written copy (since the /repo fix for D17 a
+    failed directory save removes the tree it created) *)
 Definition INV (s : sys) : Prop :=
-  length (s_fs s) = 4 /\ desc_from (S (s_gen s)) (s_fs s) /\ sinv (s_fs s) = true.
+  length (s_fs s) = 4 /\ desc_from (S (s_gen s)) (s_fs s) /\ sinv (s_fs s) = true
+  /\ nopartial (s_fs s) = true.
 
 Lemma len4 (l : fsys) : length l = 4 -> exists e0 e1 e2 e3, l = [e0; e1; e2; e3].
 Proof.
@@ -207,21 +213,53 @@ Proof.
   exists e0, e1, e2, e3. reflexivity.
 Qed.
 
-Definition save_post (f : fmt) (fl : option nat) (s s' : sys) : Prop :=
+Definition save_post (s s' : sys) : Prop :=
   INV s'
-  /\ (is_partial (slot (s_fs s') 0) = true -> f = Dir /\ fl <> None)
-  /\ (nopartial (s_fs s) = true -> f = Zip -> nopartial (s_fs s') = true)
   /\ (s_flag s = false -> s_flag s' = false)
   /\ s_reg s' = s_reg s /\ s_nuid s' = s_nuid s
   /\ s_gen s' = S (s_gen s).
 
+(** the writer followed by the removal of a partly written tree *)
+Definition finish (f : fmt) (r : res) : res :=
+  match r with Done w2 => Done w2 | Raised w2 => Raised (drop_partial 3 f w2) end.
+
+Lemma finish_spec f g t w r :
+  writer_post f g t w r ->
+  let r' := finish f r in
+  flag (wof r') = false /\ reg (wof r') = reg w /\ nuid (wof r') = nuid w
+  /\ raised r' = raised r
+  /\ (fs (wof r') = Absent :: t \/ exists n, fs (wof r') = Good g f n :: t)
+  /\ (fault w = None -> raised r' = false /\ exists n, fs (wof r') = Good g f n :: t).
+Proof.
+  intros (P1 & P2 & P3 & P4 & P5). cbn zeta.
+  destruct r as [w2|w2]; cbn [finish wof raised] in *.
+  - (* the writer returned *)
+    split; [exact P1|]. split; [exact P2|]. split; [exact P3|]. split; [reflexivity|]. split; [|exact P5].
+    destruct P4 as [(_ & X)|[((n & Q) & _)|(_ & X & _)]]; try discriminate X. right. exists n. exact Q.
+  - (* the writer raised *)
+    destruct (drop_partial_session 3 f w2) as (d1 & d2 & d3).
+    split; [rewrite d3; exact P1|]. split; [rewrite d1; exact P2|]. split; [rewrite d2; exact P3|].
+    split; [reflexivity|]. split.
+    + destruct P4 as [(Q & _)|[((n & Q) & Hd)|(Hf & _ & Hfl & n & Q)]].
+      * left. rewrite (drop_partial_absent 3 f w2 t Q). exact Q.
+      * right. exists n. destruct f; [exact Q|]. specialize (Hd eq_refl). discriminate Hd.
+      * left. subst f. exact (drop_partial_partial 2 w2 g n t Q Hfl).
+    + intros Hn. destruct (P5 Hn) as (X & _). discriminate X.
+Qed.
+
+Lemma nopartial_head e t : nopartial (e :: t) = true -> is_partial e = false /\ nopartial t = true.
+Proof.
+  unfold nopartial. cbn [forallb]. intros H. apply andb_true_iff in H. destruct H as (A & B).
+  split; [destruct (is_partial e); [discriminate A|reflexivity]|exact B].
+Qed.
+
 Lemma save_step f sh fl s :
-  INV s -> (is_partial (slot (s_fs s) 0) = true -> fl = None) ->
-  save_post f fl s (step s (OSave true f sh fl)).
+  INV s -> save_post s (step s (OSave true f sh fl)).
 Proof.
   destruct s as [l r n g fl0]. unfold INV. cbn [s_fs s_gen s_flag s_reg s_nuid].
-  intros (L & D & SI) Hd.
-  destruct (len4 l L) as (e0 & e1 & e2 & e3 & ->). cbn [slot nth] in Hd.
+  intros (L & D & SI & NP).
+  destruct (len4 l L) as (e0 & e1 & e2 & e3 & ->).
+  destruct (nopartial_head _ _ NP) as (Hp & _).
   unfold step, run_op, write_model, enter, max_backups. cbn [s_fs s_gen s_flag s_reg s_nuid].
   change (mkW [e0; e1; e2; e3] r n fl0 fl [] 0) with (mk4 e0 e1 e2 e3 r n fl0 fl [] 0).
   pose proof (incr_session 3 0 (mk4 e0 e1 e2 e3 r n fl0 fl [] 0)) as (i1 & i2 & i3 & _). cbn zeta in i1, i2, i3.
@@ -230,37 +268,23 @@ Proof.
     destruct (rot_done _ _ _ _ _ _ _ _ _ _ _ E) as (Hr & Hf).
     destruct (rotate_facts (S g) e0 e1 e2 e3 D) as (t & Ht & Lt & Dt & S1 & S2 & Np).
     rewrite Ht in Hr.
-    destruct (writer_spec f sh (S g) w' t Hr) as (P1 & P2 & P3 & P4 & P5).
+    pose proof (finish_spec f (S g) t w' _ (writer_spec f sh (S g) w' t Hr)) as (P1 & P2 & P3 & _ & P4 & _).
+    cbn zeta in P1, P2, P3, P4. fold (finish f (writer f sh (S g) w')).
     unfold save_post, INV, leave. cbn [s_fs s_gen s_flag s_reg s_nuid].
     assert (Dt' : desc_from (S g) (Absent :: t)) by exact Dt.
-    destruct P4 as [(Q & Qr)|[(k & Q)|(Qf & Qr & k & Q)]]; rewrite Q.
-    + (* nothing written *)
-      assert (Hp : is_partial e0 = false).
-      { destruct (is_partial e0) eqn:X; [|reflexivity]. destruct P5 as (Y & _); [apply Hf, Hd; reflexivity|].
-        rewrite Y in Qr. discriminate Qr. }
-      split; [split; [cbn; rewrite Lt; reflexivity|split; [apply (desc_from_mono _ (S g)); [lia|exact Dt']|apply S1; auto]]|].
-      split; [cbn; discriminate|]. split; [intros Hn _; cbn; apply Np; exact Hn|].
+    destruct P4 as [Q|(k & Q)]; rewrite Q.
+    + (* nothing is left at <path> *)
+      split; [split; [cbn; rewrite Lt; reflexivity|split; [apply (desc_from_mono _ (S g)); [lia|exact Dt']|
+              split; [apply S1; auto|cbn; apply Np; exact NP]]]|].
       split; [intros _; exact P1|]. split; [rewrite P2; exact i1|]. split; [rewrite P3; exact i2|reflexivity].
     + (* complete copy of the new generation *)
-      split; [split; [cbn; rewrite Lt; reflexivity|split; [cbn; split; [lia|apply (desc_from_mono _ (S g)); [lia|exact Dt]]|apply S2; reflexivity]]|].
-      split; [cbn; discriminate|]. split; [intros Hn _; cbn; apply Np; exact Hn|].
-      split; [intros _; exact P1|]. split; [rewrite P2; exact i1|]. split; [rewrite P3; exact i2|reflexivity].
-    + (* partially written directory *)
-      assert (Hfl : fl <> None).
-      { intros X. destruct P5 as (Y & _); [apply Hf; exact X|]. rewrite Y in Qr. discriminate Qr. }
-      assert (Hp : is_partial e0 = false).
-      { destruct (is_partial e0) eqn:X; [|reflexivity]. exfalso. apply Hfl, Hd. reflexivity. }
-      split; [split; [cbn; rewrite Lt; reflexivity|split; [cbn; split; [lia|apply (desc_from_mono _ (S g)); [lia|exact Dt]]|apply S1; auto]]|].
-      split; [intros _; split; [exact Qf|exact Hfl]|]. split; [intros _ Z; rewrite Z in Qf; discriminate Qf|].
+      split; [split; [cbn; rewrite Lt; reflexivity|split; [cbn; split; [lia|apply (desc_from_mono _ (S g)); [lia|exact Dt]]|
+              split; [apply S2; reflexivity|cbn; apply Np; exact NP]]]|].
       split; [intros _; exact P1|]. split; [rewrite P2; exact i1|]. split; [rewrite P3; exact i2|reflexivity].
   - (* the rotation itself failed *)
-    assert (Hp : is_partial e0 = false).
-    { destruct (is_partial e0) eqn:X; [|reflexivity]. rewrite (Hd eq_refl) in E.
-      pose proof (rot_nofault e0 e1 e2 e3 r n fl0 [] 0) as Y. rewrite E in Y. discriminate Y. }
     destruct (rot_raised (S g) _ _ _ _ _ _ _ _ _ _ _ E D SI Hp) as (R1 & R2 & R3 & R4 & R5).
     unfold save_post, INV, leave. cbn [s_fs s_gen s_flag s_reg s_nuid].
-    split; [split; [exact R1|split; [apply (desc_from_mono _ (S g)); [lia|exact R2]|exact R3]]|].
-    split; [intros X; rewrite R4 in X; discriminate X|]. split; [intros Hn _; apply R5; exact Hn|].
+    split; [split; [exact R1|split; [apply (desc_from_mono _ (S g)); [lia|exact R2]|split; [exact R3|apply R5; exact NP]]]|].
     split; [intros X; rewrite i3; exact X|]. split; [exact i1|]. split; [exact i2|reflexivity].
 Qed.
 
@@ -295,86 +319,45 @@ Qed.
 
 Lemma INV_backup s : INV s -> BackupInv (s_fs s).
 Proof.
-  intros (L & D & SI). split; [exact L|]. split; [exact (sinv_latest _ _ L D SI)|].
+  intros (L & D & SI & _). split; [exact L|]. split; [exact (sinv_latest _ _ L D SI)|].
   exists (S (s_gen s)). exact D.
 Qed.
 
 Lemma INV_init : INV init.
 Proof. unfold INV. cbn. auto. Qed.
 
-Definition head_unfaulted (l : list saveop) : Prop :=
-  match l with b :: _ => faulted b = false | [] => True end.
-
-Lemma faulted_none f sh fl : faulted (f, sh, fl) = false -> fl = None.
-Proof. destruct fl; cbn; [discriminate|reflexivity]. Qed.
-
 Lemma saves_inv : forall (saves : list saveop) (s : sys),
-  INV s -> (is_partial (slot (s_fs s) 0) = true -> head_unfaulted saves) ->
-  calm saves -> INV (fold_left step (map to_op saves) s).
+  INV s -> INV (fold_left step (map to_op saves) s).
 Proof.
-  induction saves as [|[[f sh] fl] t IH]; intros s Hi Hd Hc; cbn [map fold_left]; [exact Hi|].
-  destruct Hc as (Hc1 & Hc2).
-  assert (Hd' : is_partial (slot (s_fs s) 0) = true -> fl = None).
-  { intros X. apply (faulted_none f sh). exact (Hd X). }
-  destruct (save_step f sh fl s Hi Hd') as (P1 & P2 & _).
-  cbn [to_op]. apply IH; [exact P1| |exact Hc2].
-  intros X. destruct (P2 X) as (-> & Hfl). destruct t as [|b t']; [exact I|]. cbn.
-  apply Hc1; [reflexivity|]. destruct fl; [reflexivity|contradiction].
+  induction saves as [|[[f sh] fl] t IH]; intros s Hi; cbn [map fold_left]; [exact Hi|].
+  destruct (save_step f sh fl s Hi) as (P1 & _).
+  cbn [to_op]. apply IH. exact P1.
 Qed.
 
 Lemma run_saves_unfold l : run_saves l = s_fs (fold_left step (map to_op l) init).
 Proof. reflexivity. Qed.
 
-Lemma backup_all saves : calm saves -> BackupInv (run_saves saves).
+(** ALL sequences of saves, successful or failed at any operation, both formats *)
+Lemma backup_all saves : BackupInv (run_saves saves).
+Proof. rewrite run_saves_unfold. apply INV_backup, saves_inv, INV_init. Qed.
+
+(** no path ever holds a partly written copy *)
+Lemma backup_nopartial saves :
+  nopartial (run_saves saves) = true /\ is_partial (slot (run_saves saves) 0) = false.
 Proof.
-  intros Hc. rewrite run_saves_unfold. apply INV_backup, saves_inv; [exact INV_init| |exact Hc].
-  cbn. discriminate.
+  rewrite run_saves_unfold.
+  destruct (saves_inv saves init INV_init) as (L & _ & _ & N).
+  split; [exact N|].
+  destruct (len4 _ L) as (e0 & e1 & e2 & e3 & E). rewrite E in N |- *.
+  destruct (nopartial_head _ _ N) as (X & _). exact X.
 Qed.
 
-(** zip saves only *)
-Lemma all_zip_calm l : all_zip l -> calm l.
-Proof.
-  induction 1 as [|a t Ha Ht IH]; cbn; [exact I|]. split; [|exact IH].
-  destruct t; [exact I|]. intros X. rewrite Ha in X. discriminate X.
-Qed.
-
-Lemma zip_nopartial : forall (saves : list saveop) (s : sys),
-  INV s -> nopartial (s_fs s) = true -> all_zip saves ->
-  nopartial (s_fs (fold_left step (map to_op saves) s)) = true.
-Proof.
-  induction saves as [|[[f sh] fl] t IH]; intros s Hi Hn Hz; cbn [map fold_left]; [exact Hn|].
-  inversion Hz as [|a t' Ha Ht]; subst.
-  assert (Hf : f = Zip) by (destruct f; [reflexivity|discriminate Ha]).
-  assert (Hd : is_partial (slot (s_fs s) 0) = true -> fl = None).
-  { intros X. exfalso. destruct Hi as (L & _). destruct (len4 _ L) as (e0 & e1 & e2 & e3 & E).
-    rewrite E in X, Hn. cbn in X, Hn. rewrite X in Hn. discriminate Hn. }
-  destruct (save_step f sh fl s Hi Hd) as (P1 & _ & P3 & _).
-  cbn [to_op]. apply IH; [exact P1|exact (P3 Hn Hf)|exact Ht].
-Qed.
-
+(** zip saves only (kept as a corollary) *)
 Lemma backup_zip saves :
   all_zip saves ->
   BackupInv (run_saves saves) /\ nopartial (run_saves saves) = true
   /\ is_partial (slot (run_saves saves) 0) = false.
-Proof.
-  intros Hz. split; [apply backup_all, all_zip_calm; exact Hz|].
-  assert (N : nopartial (run_saves saves) = true).
-  { rewrite run_saves_unfold. apply zip_nopartial; [exact INV_init|reflexivity|exact Hz]. }
-  split; [exact N|].
-  destruct (backup_all saves (all_zip_calm _ Hz)) as (L & _).
-  destruct (len4 _ L) as (e0 & e1 & e2 & e3 & E). rewrite E in N |- *. cbn in N |- *.
-  destruct (is_partial e0); [discriminate N|reflexivity].
-Qed.
-
-(** directory saves, never two failures in a row *)
-Lemma single_faults_calm l : single_faults l -> calm l.
-Proof.
-  induction l as [|a t IH]; cbn; [auto|]. intros (H1 & H2). split; [|exact (IH H2)].
-  destruct t; [exact I|]. intros _. exact H1.
-Qed.
-
-Lemma backup_dir_single saves : single_faults saves -> BackupInv (run_saves saves).
-Proof. intros H. apply backup_all, single_faults_calm, H. Qed.
+Proof. intros _. split; [apply backup_all|apply backup_nopartial]. Qed.
 
 (** an unfaulted save shifts the earlier generations in order and puts the
     new one at <path> *)
@@ -385,7 +368,7 @@ Lemma save_nofault f sh s :
     /\ raised (run_op s (OSave true f sh None)) = false.
 Proof.
   destruct s as [l r n g fl0]. unfold INV. cbn [s_fs s_gen].
-  intros (L & D & SI). destruct (len4 l L) as (e0 & e1 & e2 & e3 & ->).
+  intros (L & D & SI & _). destruct (len4 l L) as (e0 & e1 & e2 & e3 & ->).
   unfold step, run_op, write_model, enter, max_backups. cbn [s_fs s_gen s_flag s_reg s_nuid].
   change (mkW [e0; e1; e2; e3] r n fl0 None [] 0) with (mk4 e0 e1 e2 e3 r n fl0 None [] 0).
   pose proof (rot_nofault e0 e1 e2 e3 r n fl0 [] 0) as Hn.
@@ -393,44 +376,34 @@ Proof.
   destruct (rot_done _ _ _ _ _ _ _ _ _ _ _ E) as (Hr & Hf).
   destruct (rotate_facts (S g) e0 e1 e2 e3 D) as (t & Ht & _).
   rewrite Ht in Hr. cbn [andthen].
-  destruct (writer_spec f sh (S g) w' t Hr) as (_ & _ & _ & _ & P5).
+  pose proof (finish_spec f (S g) t w' _ (writer_spec f sh (S g) w' t Hr)) as (_ & _ & _ & _ & _ & P5).
+  cbn zeta in P5. fold (finish f (writer f sh (S g) w')).
   destruct (P5 (Hf eq_refl)) as (Y & k & Q).
   exists k, t. split; [exact Ht|]. split; [exact Q|exact Y].
 Qed.
 
-(** D17: two consecutive failing directory saves *)
+(** D17 (two consecutive failing directory saves) after the repair: the last good
+    copy stays at _BAK1 *)
 Lemma d17_state :
-  run_saves d17_saves = [Partial 3 3; Partial 2 3; Good 1 Dir 9; Absent].
+  run_saves d17_saves = [Absent; Good 1 Dir 9; Absent; Absent].
 Proof. vm_compute. reflexivity. Qed.
 
-Lemma d17_refutes : ~ BackupInv (run_saves d17_saves).
-Proof.
-  rewrite d17_state. intros (_ & H & _).
-  destruct (H 2 1 Dir 9 eq_refl) as (k' & g' & f' & n' & Hk & Hs & _).
-  destruct k' as [|[|k']]; [discriminate Hs|discriminate Hs|lia].
-Qed.
-
-(** the next unfaulted save after any calm history *)
+(** the next unfaulted save after any history *)
 Lemma keeps_generations saves f sh :
-  calm saves ->
   let s := run (map to_op saves) in
   exists n t, rotate (s_fs s) = Absent :: t
     /\ s_fs (step s (OSave true f sh None)) = Good (S (s_gen s)) f n :: t
     /\ raised (run_op s (OSave true f sh None)) = false.
 Proof.
-  intros Hc. cbn zeta. apply save_nofault. unfold run.
-  apply saves_inv; [exact INV_init|cbn; discriminate|exact Hc].
+  cbn zeta. apply save_nofault. unfold run. apply saves_inv. exact INV_init.
 Qed.
 
-Lemma d17_shape : single_faults d17_saves -> False.
-Proof. cbn. intros (_ & H & _). specialize (H eq_refl). discriminate H. Qed.
-
-(** the hypotheses are satisfiable on non-trivial histories *)
-Example calm_example :
+(** non-trivial histories *)
+Example mixed_example :
   let l := [(Zip, plain_dir_shape, Some 9); (Dir, plain_dir_shape, Some 8);
             (Dir, plain_dir_shape, None); (Zip, [SOpen; SFill], Some 2); (Dir, plain_dir_shape, Some 0)] in
-  calm l /\ run_saves l = [Absent; Good 3 Dir 9; Partial 2 5; Absent].
-Proof. cbn zeta. split; [cbn; repeat split; intros; try reflexivity; discriminate|vm_compute; reflexivity]. Qed.
+  run_saves l = [Absent; Good 3 Dir 9; Absent; Absent].
+Proof. vm_compute. reflexivity. Qed.
 
 Example zip_example :
   let l := [(Zip, [SOpen; SFill], None); (Zip, [SOpen; SFill], Some 7); (Zip, [SOpen; SFill], Some 0);
@@ -438,11 +411,11 @@ Example zip_example :
   all_zip l /\ run_saves l = [Good 4 Zip 1; Good 2 Zip 1; Absent; Good 1 Zip 1].
 Proof. cbn zeta. split; [repeat constructor|vm_compute; reflexivity]. Qed.
 
-Example single_faults_example :
-  let l := [(Dir, plain_dir_shape, None); (Dir, plain_dir_shape, Some 6); (Dir, plain_dir_shape, None);
-            (Dir, plain_dir_shape, Some 1)] in
-  single_faults l /\ run_saves l = [Good 3 Dir 9; Partial 2 3; Absent; Good 1 Dir 9].
-Proof. cbn zeta. split; [cbn; repeat split; intros; try reflexivity; discriminate|vm_compute; reflexivity]. Qed.
+Example dir_faults_example :
+  let l := [(Dir, plain_dir_shape, None); (Dir, plain_dir_shape, Some 6); (Dir, plain_dir_shape, Some 7);
+            (Dir, plain_dir_shape, None); (Dir, plain_dir_shape, Some 1)] in
+  run_saves l = [Good 4 Dir 9; Absent; Good 1 Dir 9; Absent].   (* the last save failed inside the rotation *)
+Proof. vm_compute. reflexivity. Qed.
 
 Example rotate_example :
   rotate [Good 3 Zip 1; Good 2 Dir 9; Absent; Good 1 Zip 1] = [Absent; Good 3 Zip 1; Good 2 Dir 9; Good 1 Zip 1].
